@@ -319,6 +319,19 @@ def rule_memo_key(facts):
                     r.violations.append(V("MEMO-KEY", b["uname"], "identity does not depend on the parser value",
                                           "the parser-identity component of the memo key (%s) is not derived from `self`: distinct memoised "
                                           "parsers of the same type share entries" % fmt_roots(idroots)[:120], *loc(b)))
+    if ok and keyl is not None:
+        # the result of a parser also depends on the context it runs under (configure / with_ctx / ignore_with_ctx hand a value down):
+        # either the key has a component derived from inp.ctx, or Memoized is only a parser for the unit context
+        pv = Prov(b)
+        kroots = pv.of_local(keyl["l"])
+        uses_ctx = mirq.roots_mention(kroots, lambda y: isinstance(y, tuple) and y[0] == "arg" and y[1] == 2 and "ctx" in y[2:])
+        unit_ctx = any(re.search(r"Context\s*(==|=)\s*\(\)", str(x)) for x in (b.get("preds") or []))
+        r.ob(uses_ctx or unit_ctx)
+        if not (uses_ctx or unit_ctx):
+            r.violations.append(V("MEMO-KEY", b["uname"], "ctx-not-in-key",
+                                  "the memo key (%s) has no component derived from the context (`inp.ctx`) although Memoized is a parser for "
+                                  "every E::Context: the same memoised parser tried at one position under two different contexts gets the "
+                                  "first context's recorded failure replayed for the second" % fmt_roots(kroots)[:160], *loc(b)))
     if not ok and keyl is not None:
         # the table is keyed by something that is not a (position, identity) pair: a single word mixing both (address + offset,
         # a hash, only one of the two) makes distinct (position, parser) pairs share an entry
